@@ -1049,35 +1049,40 @@ def gen_history_case(r):
         return ["doc", [a_tag() for _ in range(r.randint(2, 4))]]
 
     steps = [a_doc()]
-    ntags = len(steps[0][1])
+    tagkeys = [[k for k, _ in al] for _, al in steps[0][1]]      # the attributes each tag carries (targets of changes)
     for _ in range(r.randint(3, 9)):
         x = r.random()
         if x < 0.5:
-            i = r.randrange(ntags)
-            key = r.choice(["class", "class", "rel", "headers", "accesskey", "id", "title"])
+            i = r.randrange(len(tagkeys))
+            key = r.choice(tagkeys[i]) if r.random() < 0.85 else r.choice(["class", "rel", "headers", "accesskey", "id", "title"])
             op = r.choice(LIST_OPS)
             arg = None
             if op in ("append", "insert0"):
                 arg = r.choice(["seen", "x", "a", "big"])
             elif op == "remove":
-                arg = r.choice([w for s in pool for w in s.split()] + ["seen", "x"])
+                arg = r.choice([w for s in pool for w in s.split()] * 3 + ["seen", "x"])
             elif op == "iadd":
                 arg = [r.choice(["u", "v", "a"]) for _ in range(r.randint(0, 2))]
             steps.append(["mut", i, key, op, arg])
         elif x < 0.7:
             d = a_doc()
             steps.append(d)
-            ntags += len(d[1])
+            tagkeys += [[k for k, _ in al] for _, al in d[1]]
         elif x < 0.8:
             name, key = r.choice(pairs)
             steps.append(["new", name, [[key, r.choice(pool)]]])
-            ntags += 1
+            tagkeys.append([key])
         elif x < 0.92:
-            steps.append(["copy", r.randrange(ntags)])
-            ntags += 1
+            i = r.randrange(len(tagkeys))
+            steps.append(["copy", i])
+            tagkeys.append(list(tagkeys[i]))
         else:
             vd = r.choice([["s", r.choice(pool)], ["l", 0, ["q", "r"]], ["b", True], ["n"], ["i", "0"], ["i", "7"], ["l", 1, []]])
-            steps.append(["set", r.randrange(ntags), ["p", r.choice(["class", "rel", "id"])], vd])
+            i = r.randrange(len(tagkeys))
+            k = r.choice(["class", "rel", "id"])
+            steps.append(["set", i, ["p", k], vd])
+            if k not in tagkeys[i]:
+                tagkeys[i].append(k)
     return {"kind": "history", "cfg": cfg, "reuse": r.random() < 0.6, "steps": steps}
 
 
